@@ -47,6 +47,49 @@ CLAIMS = {
             "Not covered: the ill-formed (BITS, LIMBS) clause (compile-time outcomes are not solver-decidable; the "
             "known Uint::<64,2>::MAX case is listed in DESIGN 7), quickcheck and proptest generators (thread RNG / "
             "strategy machinery), closure under mul/div/gcd-family operations beyond what C02/C03 assert."),
+    "C09": ("5/C09",
+            "from_str_radix on every ASCII string of length <= 3 x every radix 0..=70 (both alphabets, ignored "
+            "characters, InvalidRadix/InvalidBase/InvalidDigit/Overflow with payloads and precedence) at Uint<16,1> and "
+            "Uint<65,2> (thorough: length 4 at 8 bits, width 0); FromStr prefix sniffing on strings <= 4 bytes; "
+            "to_base_le/to_base_be digits (range, no superfluous digit, Horner value, BE = reverse) for FULL values at "
+            "fixed bases {2,3,10,16,255,256,10^4,2^32,10^19,2^63,2^64-1} where <= 20 digits; from_base_le/be on every "
+            "digit array of length <= 3 (u64 digits) for bases {2,10,2^32,2^64-1}; bases 0 and 1 rejected.",
+            "Not claimed: all of Display/Debug/LowerHex/UpperHex/Octal/Binary (core::fmt does not finish under CBMC "
+            "even at 8 bits); strings longer than 4 bytes; non-ASCII input; symbolic bases for the digit iterators."),
+    "C10": ("5/C10",
+            "add_mod's add/compare/conditional-subtract logic for ALL (a, b, m) at widths {1,7,64,65,127,128,129,250} "
+            "with reduce_mod abstracted to 'any residue below m'; reduce_mod's plumbing for ALL (a, m) with div_rem "
+            "stubbed; reduce_mod, add_mod, mul_mod end-to-end on every (a, b, m) at 2 bits and reduce_mod/add_mod at 8 "
+            "bits with the real code (thorough: 1, 7, 8 bits all four incl. pow_mod with exponent < 8).",
+            "Outside: mul_mod/pow_mod value correctness above 8 bits, exponents >= 8, inv_mod (shares the Lehmer "
+            "loop, see C12)."),
+    "C16": ("5/C16",
+            "alloy-rlp, fastrlp 0.3/0.4 (bytes = minimal big-endian RLP string, length() exact, decode(encode) = v), "
+            "SSZ and borsh (BYTES little-endian bytes, lengths, round trip), SCALE fixed form (prefix + LE bytes, "
+            "size_hint and max_encoded_len are upper bounds, round trip), SCALE compact (four modes, size_hint bound, "
+            "also on a 264-bit type), DER (canonical INTEGER TLV, value_len) for ALL values at widths "
+            "{0,1,7,8,16,60,64,65,72,128}; rlp crate at 8/16 bits (thorough).",
+            "Not claimed: serde human-readable serialisation and postgres text/JSON encodings (format!), num-bigint, "
+            "ark-ff, primitive-types/bytemuck casts, postgres to_sql, the 55-byte RLP and 536-bit compact limits "
+            "(width too large for the budget)."),
+    "C18": ("5/C18",
+            "Uint -> f64: the result is finite, non-negative and one of the two 53-bit neighbours of the exact value, "
+            "exact whenever representable, for ALL values at 8 and 64 bits; f64 -> Uint: every NaN pattern yields "
+            "NotANumber and saturating/wrapping_from give 0 at widths {0,1,8,64,65}.",
+            "Weak fit, stated: every other float -> Uint class (negative, sub-half, halves, [2^52,2^53), too large, "
+            "infinities) does not finish - TryFrom<f64> evaluates `value % modulus` (CBMC models fmod by a loop) and "
+            "re-enters itself; > 300 s even for the constant +inf. f32, monotonicity and widths > 64 for Uint -> f64 "
+            "are registered only where a probe finished."),
+    "C20": ("5/C20",
+            "subtle (ct_eq/ct_gt/ct_lt, conditional_select/assign/swap/negate, bit_ct incl. its panic), the Bits "
+            "wrapper's forwarded methods and operators, num-traits (Zero/One/Bounded, Checked*/Saturating*/Wrapping*/"
+            "Overflowing* add/sub/neg/shl/shr, To/FromPrimitive, NumCast, PrimInt counts/shifts/rotates/reverse_bits, "
+            "To/FromBytes) against the inherent methods on ALL operands; multiplication-based (CheckedMul ... MulAdd) "
+            "and division-based facades (all / % operator shapes, CheckedDiv/Rem, Euclid, CheckedEuclid, num-integer "
+            "div_floor/mod_floor/div_rem/div_ceil/is_multiple_of) with the inherent multipliers / div_rem replaced by "
+            "tagged mixing stubs; zero-divisor None; parity, inc, dec. Widths {0,1,7,64,65,128,250}.",
+            "Not covered: Pow/Inv/PrimInt::pow, gcd/lcm/extended_gcd forwarding, swap_bytes/from_be/to_be, Num::"
+            "from_str_radix, zeroize; Sum/Product are in C01/C02. Rotations use amounts 0..=65535."),
     "C13": ("5/C13",
             "pow/wrapping_pow/overflowing_pow at 1 bit and wrapping_pow at 3 bits for every (base, exponent) "
             "(thorough: all five forms at {1,2,3,7,8}); log2/checked_log2 at every width in "
